@@ -216,7 +216,8 @@ func observeConstructed(c gx.Case, t gx.Tok, viol *[]hx.OracleViolation) {
 		if w := graph.CliqueNumber(g); w != bt.omega {
 			fail("CliqueNumber", "value %d, constructed clique number %d", w, bt.omega)
 		}
-		if bt.alpha >= 0 {
+		// (the clique search on the complement view is the one expensive call here: ~2.5 s at n = 512)
+		if bt.alpha >= 0 && (n <= 300 || vi == 0) && n <= 700 {
 			if a := graph.IndependenceNumber(g); a != bt.alpha {
 				fail("IndependenceNumber", "value %d, constructed independence number %d", a, bt.alpha)
 			}
